@@ -7,6 +7,7 @@ triangle share depth ranges; it needs C03's non-overlap of the pieces).
 -/
 import Retro.Props.C06.Painter
 import Retro.Props.C01.Ideal
+import Mathlib.Tactic.IntervalCases
 
 namespace Retro.Props.C06
 open Retro Retro.Clip Retro.Raster Retro.Render Retro.Lemmas.Clip Retro.Lemmas.Raster Retro.Lemmas.Target
@@ -182,5 +183,44 @@ theorem render_painter_unclipped_partial (e22 e23 : K) (h22 : 0 < e22) (h23 : e2
       exact zbuf_perm cz hz shade _ _ hperm (noTies_of_sorted shade FP hsortedF) (c, z)
   subst this
   exact ⟨t1, s1, s2, d1, d2⟩
+
+/-! ### Non-vacuity: the two-triangle scene `NV` (w = 2 in front of w = 4) meets every hypothesis -/
+
+namespace NVP
+open NV
+def cp : Ctx := { faceCull := none, depthTest := none, depthSort := some .backToFront }
+
+instance decNearerThan (t u : Tri K) : Decidable (NearerThan t u) := by unfold NearerThan; infer_instance
+
+theorem t0_depth (x y : Nat) (c : Nat) (z : Rat) (h : pix t0 x y = some (c, z)) : z ≤ 0 := by
+  have hz : pixZ t0 x y = some z := by
+    unfold pix at h
+    cases hc : pixC t0 x y <;> cases hz : pixZ t0 x y <;> simp [hc, hz] at h
+    rw [h.2]
+  simp only [pixZ, t0, Option.bind_some, List.getElem?_replicate] at hz
+  split_ifs at hz
+  · simp only [Option.bind_some, List.getElem?_replicate] at hz
+    split_ifs at hz
+    · simp only [Option.some.injEq] at hz; rw [← hz]
+  · cases hz
+
+example : ∃ t' s1 s2, render cp sh (viewportMat 0 4 0 4) [(3, 4, 5), (0, 1, 2)] vs t0 = .ok (t', s1) ∧
+    render c0 sh (viewportMat 0 4 0 4) [(3, 4, 5), (0, 1, 2)] vs t0 = .ok (t', s2) := by
+  refine render_painter_unclipped_partial (11 / 9 : Rat) (-20 / 9) (by norm_num) (by norm_num) cp c0
+    ⟨rfl, rfl, rfl⟩ rfl ⟨rfl, rfl, rfl⟩ rfl sh 0 4 0 4 4 4 1 (by omega) (by omega) (by omega) (by omega)
+    _ vs (by decide) ?_ ?_ ?_ t0 ?_ t0_depth
+  · intro v hv
+    simp only [vs, List.mem_cons, List.mem_nil_iff, or_false] at hv
+    rcases hv with rfl | rfl | rfl | rfl | rfl | rfl <;> refine ⟨?_, rfl⟩ <;> norm_num [pz]
+  · intro v hv
+    simp only [vs, List.mem_cons, List.mem_nil_iff, or_false] at hv
+    rw [Retro.Props.C03.inside_iff]
+    rcases hv with rfl | rfl | rfl | rfl | rfl | rfl <;> norm_num [pz]
+  · decide +kernel
+  · refine ⟨⟨rfl, by decide, ?_⟩, rfl⟩
+    intro d hd
+    cases hd
+    exact ⟨rfl, by decide⟩
+end NVP
 
 end Retro.Props.C06
